@@ -74,6 +74,97 @@ theorem nodup_pick {l : List α} {ps : List Nat} (hl : l.Nodup) (hps : ps.Nodup)
 theorem keys_pick (d : D α) (ps : List Nat) : keys (pick d ps) = pick (keys d) ps := by
   unfold keys; rw [pick_map]
 
+theorem pick_range (l : List α) : pick l (List.range l.length) = l := by
+  apply List.ext_getElem?
+  intro i
+  have hlt : ∀ p ∈ List.range l.length, p < l.length := fun p hp => List.mem_range.1 hp
+  have h := congrArg (fun x => x[i]?) (pick_map_some hlt)
+  simp only [List.getElem?_map] at h
+  by_cases hi : i < l.length
+  · have h1 : i < (pick l (List.range l.length)).length := by rw [length_pick hlt]; simpa using hi
+    rw [List.getElem?_eq_getElem h1] at h ⊢
+    simp only [Option.map_some, List.getElem?_range hi, List.getElem?_eq_getElem hi] at h
+    rw [List.getElem?_eq_getElem hi]
+    exact Option.some.inj h
+  · have h1 : ¬ i < (pick l (List.range l.length)).length := by rw [length_pick hlt]; simpa using hi
+    rw [List.getElem?_eq_none (by omega), List.getElem?_eq_none (by omega)]
+
+theorem pick_reverse (l : List α) (ps : List Nat) : pick l ps.reverse = (pick l ps).reverse := by
+  unfold pick
+  rw [List.filterMap_reverse]
+
+theorem pick_eq_filterMap_range (l : List α) (f : Nat → Nat) (k : Nat) :
+    pick l ((List.range k).map f) = (List.range k).filterMap fun i => l[f i]? := by
+  unfold pick
+  rw [List.filterMap_map]
+  rfl
+
+/-- Positions `s, s+1, …, s+k-1` of a list are `(l.drop s).take k`. -/
+theorem pick_consecutive (l : List α) (s k : Nat) (h : s + k ≤ l.length) :
+    pick l ((List.range k).map (s + ·)) = (l.drop s).take k := by
+  apply List.ext_getElem?
+  intro i
+  have hlt : ∀ p ∈ (List.range k).map (s + ·), p < l.length := by
+    intro p hp
+    obtain ⟨j, hj, rfl⟩ := List.mem_map.1 hp
+    have := List.mem_range.1 hj
+    omega
+  have hm := congrArg (fun x => x[i]?) (pick_map_some hlt)
+  simp only [List.getElem?_map] at hm
+  by_cases hi : i < k
+  · have h1 : i < (pick l ((List.range k).map (s + ·))).length := by rw [length_pick hlt]; simpa using hi
+    rw [List.getElem?_eq_getElem h1] at hm ⊢
+    simp only [Option.map_some, List.getElem?_range hi] at hm
+    rw [List.getElem?_take_of_lt hi, List.getElem?_drop]
+    exact Option.some.inj hm
+  · have h1 : ¬ i < (pick l ((List.range k).map (s + ·))).length := by rw [length_pick hlt]; simpa using hi
+    rw [List.getElem?_eq_none (by omega), List.getElem?_eq_none]
+    simp only [List.length_take, List.length_drop]
+    omega
+
+theorem maskPosFrom_lt (o : Nat) (mask : List Bool) : ∀ p ∈ maskPosFrom o mask, o ≤ p ∧ p < o + mask.length := by
+  induction mask generalizing o with
+  | nil => intro p hp; simp [maskPosFrom] at hp
+  | cons b t ih =>
+    intro p hp
+    unfold maskPosFrom at hp
+    cases b with
+    | true =>
+      simp only [if_true, List.mem_cons] at hp
+      rcases hp with rfl | hp
+      · simp
+      · have := ih (o + 1) p hp; simp only [List.length_cons]; omega
+    | false =>
+      simp only [Bool.false_eq_true, if_false] at hp
+      have := ih (o + 1) p hp; simp only [List.length_cons]; omega
+
+theorem maskPosFrom_pick (o : Nat) (pre l : List α) (mask : List Bool) (ho : pre.length = o) (hl : mask.length = l.length) :
+    pick (pre ++ l) (maskPosFrom o mask) = (l.zip mask).filterMap fun p => if p.2 then some p.1 else none := by
+  induction mask generalizing o pre l with
+  | nil =>
+    cases l with
+    | nil => rfl
+    | cons _ _ => simp at hl
+  | cons b t ih =>
+    cases l with
+    | nil => simp at hl
+    | cons x xs =>
+      have hl' : t.length = xs.length := by simpa using hl
+      have hrec := ih (o + 1) (pre ++ [x]) xs (by simp [ho]) hl'
+      rw [List.append_assoc, List.singleton_append] at hrec
+      unfold maskPosFrom
+      cases b with
+      | true =>
+        simp only [if_true, List.zip_cons_cons, List.filterMap_cons]
+        have hx : o < (pre ++ x :: xs).length := by simp [ho]
+        rw [pick_cons_of_lt _ hx, hrec]
+        have : (pre ++ x :: xs)[o] = x := by
+          rw [List.getElem_append_right (by omega)]; simp [ho]
+        rw [this]
+      | false =>
+        simp only [Bool.false_eq_true, if_false, List.zip_cons_cons, List.filterMap_cons]
+        exact hrec
+
 /-! ### `set` / `setAll` on fresh keys, `ofList` on distinct keys -/
 
 theorem set_of_not_mem {d : D α} {k : Int} (e : α) (h : k ∉ keys d) : set d k e = d ++ [(k, e)] := by
